@@ -107,6 +107,32 @@ func genAssignJob(r *prng, st map[string]int) Job {
 			g.assign()
 			g.loopInts = g.loopInts[:len(g.loopInts)-1]
 			g.emit("}")
+		case 2:
+			if r.bool() {
+				// a context variable as a relay, rebound to a source of another kind
+				a, b := g.source(), g.source()
+				g.emit("ctx.relay = " + a.text)
+				g.emit(g.dest().text + " = relay")
+				g.emit("ctx.relay = " + b.text)
+				g.emit(g.dest().text + " = relay")
+				g.count("context variable relayed twice")
+			} else {
+				// an index directly under a variable that holds an array
+				switch r.intn(3) {
+				case 0:
+					g.emit("ctx.arr = jso.a")
+					g.emit(g.dest().text + " = " + pick(r, []string{"arr.0", "arr[0]"}))
+				case 1:
+					g.emit("ctx.rows = jso.grid")
+					g.emit(g.dest().text + " = " + pick(r, []string{"rows.1.0", "rows[1][0]", "rows[0].0"}))
+				default:
+					g.emit("for _, row := range jso.grid {")
+					g.emit(g.dest().text + " = " + pick(r, []string{"row.0", "row[0]"}))
+					g.emit("probe(\"row\", row.0)")
+					g.emit("}")
+				}
+				g.count("index directly under an array variable")
+			}
 		default:
 			// typed cross product: every source kind to every destination kind
 			d := g.dest()
